@@ -61,6 +61,7 @@ ObsReal(rec) ==
       ndata |-> [s \in Sessions |-> Len(DataFrames(rec, s))],
       push |-> {ToSet(rec.push[i].to) : i \in {j \in DOMAIN rec.push : rec.push[j].what = "msg"}},
       ackSeq |-> IF rep.k = "ctrl" /\ "seq" \in DOMAIN rep.params THEN rep.params.seq ELSE 0,
+      afterCrash |-> rec.afterCrash,
       ackDel |-> IF rep.k = "ctrl" /\ "del" \in DOMAIN rep.params THEN rep.params.del ELSE 0,
       delmeta |-> UNION {{[s |-> s, clear |-> Frames(rec, s)[i].del.clear,
                            ids |-> UNION {IdsOf([low |-> Frames(rec, s)[i].del.delseq[j][1], hi |-> Frames(rec, s)[i].del.delseq[j][2]]) :
@@ -78,7 +79,7 @@ Check(k) ==
 Diverge(k) ==
   LET rec == Trace[k] IN
   IF rec.i = 0 THEN (IF Proj(rec.st) # InitState THEN {"init"} ELSE {})
-  ELSE IF ~Modelled(rec.act) THEN {}
+  ELSE IF ~Modelled(rec.act) \/ rec.faultFired THEN {}     \* outcome under an injected store fault is judged by the monitors only
   ELSE LET pre == Proj(Trace[k - 1].st)
            post == Proj(rec.st)
            r == Step(pre, ModelAct(rec.act))
